@@ -9,12 +9,18 @@ import (
 
 func buildLineFilter(stage *logql.LineFilter) (Processor, error) {
 	if stage.IP {
-		matcher, err := buildIPMatcher(stage.Op, stage.Value)
+		// Filter negation applies to the line, not to every address in it:
+		// `!= ip(x)` keeps exactly the lines that `|= ip(x)` drops.
+		op, negate := stage.Op, false
+		if op == logql.OpNotEq {
+			op, negate = logql.OpEq, true
+		}
+		matcher, err := buildIPMatcher(op, stage.Value)
 		if err != nil {
 			return nil, err
 		}
 
-		return &IPLineFilter{matcher: matcher}, nil
+		return &IPLineFilter{matcher: matcher, negate: negate}, nil
 	}
 
 	matcher, err := buildStringMatcher(stage.Op, stage.Value, stage.Re, false)
@@ -39,6 +45,8 @@ func (lf *LineFilter) Process(_ otelstorage.Timestamp, line string, _ LabelSet) 
 // IPLineFilter looks for IP address in a line and applies matcher to it.
 type IPLineFilter struct {
 	matcher IPMatcher
+	// negate inverts the result: keep lines without a matching address.
+	negate bool
 }
 
 // Process implements Processor.
@@ -55,7 +63,7 @@ func (lf *IPLineFilter) Process(_ otelstorage.Timestamp, line string, _ LabelSet
 
 			ip, err := netip.ParseAddr(capture)
 			if err == nil && lf.matcher.Match(ip) {
-				return line, true
+				return line, !lf.negate
 			}
 			continue
 		}
@@ -64,14 +72,14 @@ func (lf *IPLineFilter) Process(_ otelstorage.Timestamp, line string, _ LabelSet
 
 			ip, err := netip.ParseAddr(capture)
 			if err == nil && lf.matcher.Match(ip) {
-				return line, true
+				return line, !lf.negate
 			}
 			continue
 		}
 		i++
 	}
 
-	return line, false
+	return line, lf.negate
 }
 
 func tryCaptureIPv4(s string) (string, bool) {
